@@ -1,6 +1,6 @@
 (** * Cofactor: [_cofactor]/[cofactor] substitute constants for levels, and
       [_compose] substitutes a function for one level (C04). *)
-From DD Require Export Decor.
+From DD Require Export LevelKeys.
 
 (** the assignment [a] overridden by the constants of [values] (levels -> bool) *)
 Definition override (values : gmap nat bool) (a : nat → bool) : nat → bool :=
@@ -292,14 +292,14 @@ Lemma map_to_level_dict_state {A} byname (kv : list (nat * A)) s r s' :
 Proof. apply pure_map_to_level_dict. Qed.
 
 (** ** the decorated [cofactor], dynamic reordering disabled *)
-Theorem cofactor_spec s u byname values lv r s' :
+Lemma cofactor_names_spec s u values lv r s' :
   Inv s → valid s u → last_len s = None →
-  map_to_level_dict byname values (s <| rctx := true |>) = (Ok lv, s <| rctx := true |>) →
-  cofactor u byname values s = (r, s') →
+  map_to_level_dict true values (s <| rctx := true |>) = (Ok lv, s <| rctx := true |>) →
+  cofactor_names u values s = (r, s') →
   ∃ x, r = Ok x ∧ Inv s' ∧ extends s s' ∧ valid s' x ∧
        ∀ a, D s' x a = D s u (override lv a).
 Proof.
-  intros HI Hu Hoff Hmap Hrun. unfold cofactor in Hrun.
+  intros HI Hu Hoff Hmap Hrun. unfold cofactor_names in Hrun.
   apply try_to_reorder_inert in Hrun as (r1&s1&Hrun&Hcase).
   set (s0 := s <| rctx := true |>) in *.
   assert (HI0 : Inv s0) by (by apply Inv_rctx).
@@ -321,6 +321,42 @@ Proof.
   destruct Hr as (Hxv&_&_&HxD).
   exists x. split_and!; [done|by apply Inv_rctx|done|done|].
   intros a. rewrite D_rctx, HxD. unfold s0. by rewrite D_rctx.
+Qed.
+
+(** keys given as levels: the prelude (read-only) turns them into the names
+    of the variables at these levels NOW, and these names map back to the same
+    level dict *)
+Lemma cofactor_levels_run s u values lv sx :
+  Inv s → fst (map_to_level_dict false values sx) = Ok lv → lvl2var sx = lvl2var s →
+  Forall (fun p => declared_lvl s p.1) values ∧
+  lv = list_to_map (reverse values) ∧
+  (∀ l, l ∈ dom lv → declared_lvl s l) ∧
+  cofactor u false values s = cofactor_names u (namevals_at s lv) s.
+Proof.
+  intros HI Hmap El. rewrite map_to_level_dict_false in Hmap. cbn [fst] in Hmap.
+  destruct (decide (Forall (fun p => declared_lvl sx p.1) values)) as [Hall|]; [|done].
+  injection Hmap as <-.
+  assert (Hall' : Forall (fun p => declared_lvl s p.1) values).
+  { eapply Forall_impl; [exact Hall|]. intros p. unfold declared_lvl. by rewrite El. }
+  split; [done|split; [done|split]].
+  - by apply level_dict_declared.
+  - rewrite cofactor_levels_unfold. by rewrite decide_True.
+Qed.
+
+Theorem cofactor_spec s u byname values lv r s' :
+  Inv s → valid s u → last_len s = None →
+  map_to_level_dict byname values (s <| rctx := true |>) = (Ok lv, s <| rctx := true |>) →
+  cofactor u byname values s = (r, s') →
+  ∃ x, r = Ok x ∧ Inv s' ∧ extends s s' ∧ valid s' x ∧
+       ∀ a, D s' x a = D s u (override lv a).
+Proof.
+  destruct byname; [apply cofactor_names_spec|].
+  intros HI Hu Hoff Hmap Hrun.
+  destruct (cofactor_levels_run s u values lv (s <| rctx := true |>) HI) as (_&_&Hd&E);
+    [by rewrite Hmap|done|].
+  rewrite E in Hrun.
+  apply (cofactor_names_spec s u (namevals_at s lv) lv r s'); try done.
+  by apply level_dict_roundtrip.
 Qed.
 
 (** variant: whatever state the key mapping is said to end in *)
